@@ -82,6 +82,7 @@ type request struct {
 	Args      *Val           `json:"args"`
 	Reply     *Val           `json:"reply"`
 	Followup  bool           `json:"followup"`
+	Oneway    bool           `json:"oneway"`
 	TimeoutMs int            `json:"timeout_ms"`
 	Fresh     bool           `json:"fresh"`
 }
